@@ -5,10 +5,12 @@ from fractions import Fraction
 from lib.core import *
 from gen import c15_dimchecks
 from gen import c15_members
+from gen import c15_members2
+from gen import c15_kernels
 
 ID = "C15"
-PROPS_FILES = ["Gama/Props/C15.lean", "Gama/Props/C15SvdDecompose.lean"]
-LEAN_TARGETS = ["Gama.Props.C15", "Gama.Props.C15SvdDecompose"]
+PROPS_FILES = ["Gama/Props/C15.lean", "Gama/Props/C15SvdDecompose.lean", "Gama/Props/C15Kernels.lean", "Gama/Props/C15Obj.lean"]
+LEAN_TARGETS = ["Gama.Props.C15", "Gama.Props.C15SvdDecompose", "Gama.Props.C15Kernels", "Gama.Props.C15Obj"]
 DRIVERS = ["drv_matvec"]
 RULE = ("object scripts: random histories of ctor/copy/move/assign/move-assign/resize(reset)/write/fill/transpose/dtor "
         "on 8 slots of MemRep, Vec, Mat, SymMat with sizes 0..4 (plus every ordered size pair for b=a then write); "
@@ -35,7 +37,12 @@ LEVEL_TEXT = ("Lean 4 theorems for all sizes and all operation histories: the he
               "definite matrix meets only positive pivots, does not throw and returns the two-sided inverse; the model of SVD::svd returns a "
               "decomposition that reconstructs A with orthonormal factors whenever it returns (any shape), and pinv built from it "
               "satisfies the four Moore-Penrose conditions when the dropped singular values are exact zeros (for double: the "
-              "certificate is evaluated per run for tall, square, wide and rank-deficient matrices). "
+              "certificate is evaluated per run for tall, square, wide and rank-deficient matrices); the whole function pinv "
+              "(decompose, then W_inv and the triple loop) taken from A alone is the Moore-Penrose inverse whenever it returns. "
+              "The LOOPS of Mat*Vec, MatBase*Vec, TransMat*Vec, Vec*TransMat, TransVec*Mat, TransVec*MatBase and VecBase::dot are "
+              "regenerated statement by statement from the headers (pointers walking the operands) and proved EQUAL to the executed "
+              "closed-form models for all operands; their values are Matrix.mulVec / vecMul / dotProduct for all dimensions over "
+              "any semiring (Vec*TransMat: what the code computes, known finding). "
               "Models tied to lib/matvec by a translator (guards) and differential correspondence (exact rational and IEEE double "
               "instances of the same definitions) and an always-on property oracle on the C++ answers.")
 LEVEL_NOTE = ("Trusted: Lean kernel, statements in Props/C15.lean, harness/generator/comparator. The operators whose faithful "
@@ -50,7 +57,8 @@ LEVEL_NOTE = ("Trusted: Lean kernel, statements in Props/C15.lean, harness/gener
               "U^T U = 1 on kept columns, dropped singular values negligible) is still evaluated on the C++'s own U, W, V on every run.")
 TECHNIQUE = ("Lean 4 proof (refinement + invariant by induction over operation histories; entrywise algebra; loop invariants of "
              "Gauss-Jordan, Cholesky and the symmetric exchange inversion; Moore-Penrose from an SVD certificate) + translator "
-             "(dimension guards, data members of Mat and the initialisation of Mat::pentry regenerated from the headers) + correspondence")
+             "(dimension guards, data members of Mat and the initialisation of Mat::pentry, the loops of the matrix-vector products "
+             "and dot regenerated from the headers) + correspondence")
 TRUSTED = ["harness/c15_matvec.cpp: counting replacements of operator new[]/delete[] and a null-counting memcpy wrapper "
            "(observation only; the wrapper does not forward a null pointer)"]
 MODELLED = ["IEEE rounding (theorems over ordered fields; Float instance compared with tolerance)",
@@ -79,7 +87,110 @@ KNOWN = {
 
 # ----------------------------------------------------------------------------- translator (guards)
 
+def translate_symvec(ctx):
+    """W9c: member lists / implicit copy & move of SymMat and Vec -> Gen/SymVecMembers.lean"""
+    try:
+        if c15_members2.run(ctx.repo, ctx.lean / "Gama" / "Gen" / "SymVecMembers.lean"):
+            ctx.log("Gen/SymVecMembers.lean regenerated (content changed)")
+    except c15_members.Unparsable as e:
+        raise TieBroken("tools/gen/c15_members2.py", str(e))
+    except OSError as e:
+        raise TieBroken("tools/gen/c15_members2.py", "cannot read source: " + str(e))
+
+
+def gen_objhist(rng, maxlen):
+    """W9c: random SymMat / Vec / Mat object histories in which throwing lines (BadRank guards, SymMat(r,c) r!=c,
+    invert/cholDec of an indefinite matrix, Singular out of Mat::invert, Vec(-1), a + b of different dimensions) are
+    CAUGHT and the history goes on; every object is dumped after a throw.  Returns (lines, uses_chol)."""
+    ops, chol = [], False
+    sl, vl, ml = {}, {}, {}          # live slots -> dimension
+    def spd(i, n, indef=False):
+        A = [[rng.randint(-2, 2) for _ in range(n)] for _ in range(n)]
+        for a in range(n):
+            for b in range(a + 1):
+                v = (A[a][b] + A[b][a]) / 2.0 + (4.0 * n if a == b else 0.0)
+                if indef and a == b == n - 1:
+                    v = -v
+                ops.append(f"s.set {i} {a + 1} {b + 1} {H(v)}")
+    for _ in range(rng.randint(6, maxlen)):
+        r = rng.random()
+        fs = [i for i in range(8) if i not in sl]; fv = [i for i in range(8) if i not in vl]; fm = [i for i in range(8) if i not in ml]
+        if r < 0.10 and fs:
+            i, n = rng.choice(fs), rng.randint(0, 3)
+            ops.append(f"s.ctor {i} {n}"); sl[i] = n; spd(i, n, rng.random() < 0.25)
+        elif r < 0.14 and fs:
+            i, a, b = rng.choice(fs), rng.randint(0, 3), rng.randint(0, 3)
+            ops.append(f"s.ctor2 {i} {a} {b}")
+            if a == b:
+                sl[i] = a; spd(i, a)
+        elif r < 0.22 and fs and sl:
+            i, j = rng.choice(fs), rng.choice(sorted(sl)); ops.append(f"s.{rng.choice(['copy', 'move'])} {i} {j}"); sl[i] = sl[j]
+        elif r < 0.30 and sl:
+            i, j = rng.choice(sorted(sl)), rng.choice(sorted(sl)); ops.append(f"s.{rng.choice(['assign', 'massign'])} {i} {j}"); sl[i] = sl[j]
+        elif r < 0.36 and sl:
+            i, j = rng.choice(sorted(sl)), rng.choice(sorted(sl)); ops.append(f"s.{rng.choice(['add', 'sub'])} {i} {j}")
+        elif r < 0.44 and sl:
+            ops.append(f"s.invert {rng.choice(sorted(sl))}")
+        elif r < 0.49 and sl:
+            ops.append(f"s.chol {rng.choice(sorted(sl))}"); chol = True
+        elif r < 0.53 and sl:
+            i = rng.choice(sorted(sl)); a, b = rng.randint(-1, 3), rng.randint(-1, 3)
+            if rng.random() < 0.5:
+                ops.append(f"s.reset {i} {a}")
+                if a >= 0:
+                    sl[i] = a; spd(i, a)
+            else:
+                ops.append(f"s.reset2 {i} {a} {b}")
+                if a == b and a >= 0:
+                    sl[i] = a; spd(i, a)
+        elif r < 0.56 and sl:
+            i = rng.choice(sorted(sl)); ops.append(f"s.{rng.choice(['scale', 'tol'])} {i} {H(rng.choice([2, -1, 0.5, 0.25]))}")
+        elif r < 0.58 and sl:
+            i = rng.choice(sorted(sl)); ops.append(f"s.dtor {i}"); del sl[i]
+        elif r < 0.66 and fv:
+            i, n = rng.choice(fv), rng.choice([-1, 0, 1, 2, 3, 3])
+            ops.append(f"v.ctor {i} {n}")
+            if n >= 0:
+                vl[i] = n
+                for k in range(n):
+                    ops.append(f"v.set {i} {k + 1} {H(rng.randint(-5, 5))}")
+        elif r < 0.72 and fv and vl:
+            i, j = rng.choice(fv), rng.choice(sorted(vl)); how = rng.choice(["copy", "move"]); ops.append(f"v.{how} {i} {j}"); vl[i] = vl[j]
+            if how == "move":
+                vl[j] = 0
+        elif r < 0.78 and vl:
+            i, j = rng.choice(sorted(vl)), rng.choice(sorted(vl)); how = rng.choice(["assign", "massign"]); ops.append(f"v.{how} {i} {j}")
+            if i != j:
+                vl[i] = vl[j]
+                if how == "massign":
+                    vl[j] = 0
+        elif r < 0.84 and vl:
+            i, j = rng.choice(sorted(vl)), rng.choice(sorted(vl)); ops.append(f"v.{rng.choice(['add', 'sub'])} {i} {j}")
+        elif r < 0.89 and fv and vl:
+            i, j, k = rng.choice(fv), rng.choice(sorted(vl)), rng.choice(sorted(vl)); ops.append(f"v.{rng.choice(['plus', 'minus'])} {i} {j} {k}")
+            if vl[j] == vl[k]:
+                vl[i] = vl[j]
+        elif r < 0.91 and vl:
+            i = rng.choice(sorted(vl)); ops.append(f"v.scale {i} {H(rng.choice([2, -1, 0.5]))}")
+        elif r < 0.95 and fm:
+            i, n = rng.choice(fm), rng.choice([1, 2, 2, 3])
+            c = n if rng.random() < 0.8 else n + 1
+            ops.append(f"m.ctor {i} {n} {c}"); ml[i] = (n, c)
+            A = [[rng.randint(-2, 2) for _ in range(c)] for _ in range(n)]
+            if n >= 2 and rng.random() < 0.6:
+                A[n - 1] = list(A[0])                       # exactly singular: Singular after some elimination steps
+            for a in range(n):
+                for b in range(c):
+                    ops.append(f"m.set {i} {a + 1} {b + 1} {H(A[a][b])}")
+        elif ml:
+            i = rng.choice(sorted(ml)); ops.append(f"m.invert {i} {H(1e-9)}")
+        ops += ["s.xdump", "v.dump", "m.dump"] if rng.random() < 0.5 else []
+    ops += ["s.xdump", "v.dump", "m.dump"]
+    return ops, chol
+
+
 def translate(ctx):
+    translate_symvec(ctx)
     try:
         if c15_members.run(ctx.repo, ctx.lean / "Gama" / "Gen" / "MatMembers.lean"):
             ctx.log("Gen/MatMembers.lean regenerated (content changed)")
@@ -94,6 +205,15 @@ def translate(ctx):
         raise TieBroken("tools/gen/c15_dimchecks.py", str(e))
     except OSError as e:
         raise TieBroken("tools/gen/c15_dimchecks.py", "cannot read source: " + str(e))
+    # round 9: the operator LOOPS (Mat·Vec, TransMat·Vec, Vec·TransMat, TransVec·Mat, accessor variants, dot),
+    # one Lean definition per C++ function; tied to the executed hand models by Lemmas/MatVecKernels.lean
+    try:
+        if c15_kernels.run(ctx.repo, ctx.lean / "Gama" / "Gen" / "MatVecKernels.lean"):
+            ctx.log("Gen/MatVecKernels.lean regenerated (content changed)")
+    except c15_kernels.Unparsable as e:
+        raise TieBroken("tools/gen/c15_kernels.py", str(e))
+    except OSError as e:
+        raise TieBroken("tools/gen/c15_kernels.py", "cannot read source: " + str(e))
 
 
 # name of the generated table entry for every (operation, operand kinds) of the algebra stream
@@ -881,6 +1001,11 @@ def correspond(ctx, corr):
         sim = gen_inv_script(rng, ctx.size(24, 60))
         cases.append((sim.ops, ("invscript", sim.expect, sim.tags, "random")))
 
+    # 1c. (W9c) SymMat / Vec / Mat object histories that go on after caught throws
+    for _ in range(ctx.size(250, 4000)):
+        ops, chol = gen_objhist(rng, ctx.size(30, 70))
+        cases.append((ops, ("objhist", chol)))
+
     # 2. algebra: all dimension pairs, entries from {-1,0,1,2} -------------------
     N = ctx.size(3, 4)
     alg = []         # (name, sig, ops)
@@ -1134,6 +1259,31 @@ def correspond(ctx, corr):
                     corr.fail("copy is not independent of its source", {"stream": "script", "ops": ls}, "MemRep::operator=", str(dumps))
             if dumps:
                 corr.maxstat("max_leaked_blocks_in_a_script", max(d[0] for d in dumps) - sum(1 for s in dumps[-1][2] if s))
+            continue
+        if kind == "objhist":
+            throws = [k for k, l in enumerate(out) if l.startswith("throw")]
+            after = sum(1 for k in throws if any(o.startswith("dump") for o in out[k + 1:]))
+            corr.case(key="\n".join(ls) if throws else None, sample={"script": ls[:10], "impl": out[:4]} if ci % 53 == 0 else None)
+            corr.count("objhist_cases")
+            corr.count("objhist_caught_throws", len(throws))
+            corr.count("objhist_caught_badrank", sum(1 for k in throws if out[k] == "throw BadRank"))
+            corr.count("objhist_caught_singular", sum(1 for k in throws if out[k] == "throw Singular"))
+            corr.count("objhist_throwing_inplace_sym", sum(1 for k in throws if ls[k].startswith(("s.invert", "s.chol"))))
+            corr.count("objhist_dumps_after_a_throw", after)
+            payload = {"stream": "objhist", "ops": ls}
+            if crashed:
+                corr.fail("object history with caught exceptions aborted under the sanitizers", payload, "objhist", crashes[ci][1])
+                continue
+            agree = len(out) == len(mflt[ci]) and all(lines_equal(a, b, rtol=1e-9, atol=1e-12) for a, b in zip(out, mflt[ci]))
+            nonfinite = any(("0x7ff" in l) or ("0xfff" in l) for l in out)    # x/0 in double (zero pivot): no exact counterpart
+            corr.count("objhist_compared_with_exact_model", int(not meta[1] and not nonfinite))
+            if agree and not meta[1] and not nonfinite:        # no cholDec (sqrt): the exact model too
+                agree = len(out) == len(mrat[ci]) and all(lines_equal(a, b, rtol=1e-7, atol=1e-9) for a, b in zip(out, mrat[ci]))
+            if not agree:
+                k = next((k for k, (a, b) in enumerate(zip(out, mflt[ci])) if not lines_equal(a, b, rtol=1e-9, atol=1e-12)), 0)
+                corr.fail("an object's state in a history with caught exceptions is not the state of the object-history model "
+                          "(value semantics with the catch rule)", payload, "objhist",
+                          f"line {k} `{ls[k] if k < len(ls) else ''}`: implementation {out[k][:300] if k < len(out) else ''} model {mflt[ci][k][:300] if k < len(mflt[ci]) else ''}")
             continue
         if kind == "invscript":
             expect, tags = meta[1], meta[2]
@@ -1483,6 +1633,10 @@ def correspond(ctx, corr):
                       ("assign_from_never_inverted", 15), ("singular", 5), ("badrank", 5), ("reset_after_invert", 15)):
         if corr.stats.get("invscript_" + tg, 0) < least:
             corr.inconclusive.append(f"fewer than {least} Mat histories with invert tagged {tg}")
+    for tg, least in (("objhist_caught_badrank", 200), ("objhist_caught_singular", 10), ("objhist_throwing_inplace_sym", 10),
+                      ("objhist_dumps_after_a_throw", 200)):
+        if corr.stats.get(tg, 0) < least:
+            corr.inconclusive.append(f"object histories with caught exceptions: {tg} = {corr.stats.get(tg, 0)} < {least}")
     n_mixed = sum(1 for c in cases if c[1][0] == "script" and c[1][2])
     corr.count("scripts_with_assignment_between_different_sizes", n_mixed)
     if n_mixed < 0.3 * sum(1 for c in cases if c[1][0] == "script"):
